@@ -114,7 +114,7 @@ theorem DecodeBit_eq (g : T_rangeDecoder) (p : BitVec 16) :
   simp only []
   split <;> split <;> rfl
 
-theorem prob_bound_toNat (p : BitVec 16) (r : BitVec 32) (h : p.toNat ≤ 2048) :
+theorem prob_bound_toNat_dec (p : BitVec 16) (r : BitVec 32) (h : p.toNat ≤ 2048) :
     (prob_bound p r).toNat = (r.toNat / 2048) * p.toNat := by
   unfold prob_bound
   simp only [BitVec.ushiftRight_eq, BitVec.toNat_mul, BitVec.toNat_ushiftRight, BitVec.toNat_setWidth,
@@ -156,7 +156,7 @@ theorem DecodeBit_refines (g : T_rangeDecoder) (d : Rc.Dec) (p : BitVec 16)
   obtain ⟨hr, hcode, hinp⟩ := rel
   obtain ⟨ilo, ihi, ic⟩ := inv
   obtain ⟨hp1, hp2⟩ := hp
-  have hb := prob_bound_toNat p g.nrange (by omega)
+  have hb := prob_bound_toNat_dec p g.nrange (by omega)
   rw [hr] at hb
   have hq1 : d.range / 2048 * 31 ≤ d.range / 2048 * p.toNat := Nat.mul_le_mul_left _ hp1
   have hq2 : d.range / 2048 * p.toNat ≤ d.range / 2048 * 2017 := Nat.mul_le_mul_left _ hp2
